@@ -8,6 +8,7 @@ transition is compared with io.BytesIO (reads) and with the prefix / completenes
 observed at the peer for the real Channel).
 """
 import io
+import socket
 
 from vmc import core, bfs, enum
 from paramiko.file import BufferedFile
@@ -30,7 +31,13 @@ META = {
             "Channel.makefile / makefile_stderr / makefile_stdin of a real paramiko.Channel (reads: chunks arrive as "
             "CHANNEL_DATA / EXTENDED_DATA, then EOF; writes: bufsize {-1,0,1,2,3,8192} x peer send window "
             "{unlimited, 1, 2 bytes}; what reached the stream = the data messages the peer received, incl. close() "
-            "with pending buffered data).",
+            "with pending buffered data). Dimension 'the stream raises a transient error': the read space once more "
+            "(streams <=3 / <=4, modes rb/r, scripted subclass with 2 EOF styles + real-Channel file classes "
+            "(thorough: + stub ChannelFile)) with the stream answering socket.timeout once before chunk j (every j, "
+            "incl. before EOF) and once before every chunk - for the real Channel the chunk simply has not arrived and "
+            "Channel.recv (timeout 0) raises by itself: a call that passes the timeout on has returned no data, so it "
+            "has consumed nothing - every later call must equal io.BytesIO continuing from the last returned byte and "
+            "the rest of the stream must still be readable (no loss, no duplication).",
     "note": "universal-newline mode: exact comparison only for histories made of readline()/next() without size; "
             "otherwise only size limits and line shape are asserted (paramiko documents read() as untranslated). "
             "_write returning 0 is C25's subject and excluded.",
@@ -38,6 +45,7 @@ META = {
 }
 
 STOP = "<StopIteration>"
+TIMEOUT = "<socket.timeout>"
 # readline limits 1, 2, 3: with streams of length <=4 the limit 2 is the one that can fall strictly inside
 # buffered read-ahead with a newline *and* further bytes before the limit (buffer LF x | y ...)
 READ_OPS = [("read", 1), ("read", 2), ("read", None), ("readline", None), ("readline", 1), ("readline", 2),
@@ -52,15 +60,30 @@ class Source:
     """Delivers `data` in the given chunk sizes; a call never returns more than asked or than the rest
     of the current chunk.  EOF is sticky and signalled as configured."""
 
-    def __init__(self, data, chunks, eof):
+    def __init__(self, data, chunks, eof, pauses=()):
         self.data, self.chunks, self.eof = data, chunks, eof
         self.pos = 0
         self.ci = 0
         self.left = chunks[0] if chunks else 0
         self.calls = 0
+        # environment answer "nothing arrives in time": before chunk j is delivered (j = len(chunks): before
+        # EOF is signalled) the stream raises socket.timeout once - what Channel.recv does on a channel with a
+        # timeout; the call after it carries on with chunk j
+        self.pending = tuple(pauses)
+        self.raised = False
+
+    def pause_here(self):
+        at_boundary = self.pos >= len(self.data) or self.left == self.chunks[self.ci]
+        if at_boundary and self.ci in self.pending:
+            self.pending = tuple(j for j in self.pending if j != self.ci)
+            self.raised = True
+            return True
+        return False
 
     def read(self, size):
         self.calls += 1
+        if self.pause_here():
+            raise socket.timeout()
         if self.pos >= len(self.data):
             if self.eof == "empty":
                 return b""
@@ -199,8 +222,10 @@ class FedChannel(Channel):
 
 
 class ChanSource:
-    def __init__(self, chan, data, chunks, stream):
+    def __init__(self, chan, data, chunks, stream, pauses=()):
         self.chan, self.data, self.chunks, self.stream = chan, data, chunks, stream
+        self.pending = tuple(pauses)    # see Source: here the chunk simply does not arrive and the real
+        self.raised = False             # Channel.recv (timeout 0.0) raises socket.timeout by itself
         self.buf = chan.in_buffer if stream == "data" else chan.in_stderr_buffer
         self.fed = 0
         self.ci = 0
@@ -219,6 +244,10 @@ class ChanSource:
         self.calls += 1
         if len(self.buf) or self.eof:
             return
+        if self.ci in self.pending:
+            self.pending = tuple(j for j in self.pending if j != self.ci)
+            self.raised = True
+            return
         if self.ci >= len(self.chunks):
             self.eof = True
             self.chan._handle_eof(None)
@@ -236,7 +265,7 @@ class ChanSource:
             self.chan._feed_extended(m)
 
 
-def real_channel_file(cls, stream, chunks, policy, mode, bufsize):
+def real_channel_file(cls, stream, chunks, policy, mode, bufsize, pauses=()):
     kind = "ext" if cls == "Channel.makefile_stderr" else "data"
     peer = Peer(policy, kind)
     chan = FedChannel(1)
@@ -245,7 +274,7 @@ def real_channel_file(cls, stream, chunks, policy, mode, bufsize):
     chan._set_window(1 << 21, 1 << 15)
     chan._set_remote_channel(2, peer.window(), 1 << 15)
     chan.settimeout(0.0)             # guard: a call that would block raises socket.timeout instead of hanging
-    src = ChanSource(chan, stream, chunks, kind)
+    src = ChanSource(chan, stream, chunks, kind, pauses)
     chan.c42src = src
     f = getattr(chan, cls.split(".")[1])(mode, bufsize)
     return src, peer, f
@@ -262,13 +291,13 @@ def universal_lines(data):
 
 
 def make_state(cfg):
-    cls, stream, chunks, eof, policy, mode, bufsize = cfg
+    cls, stream, chunks, eof, policy, mode, bufsize, pauses = cfg
     st = St()
     st.cfg = cfg
     if cls in MAKEFILES:
-        st.src, st.sink, st.f = real_channel_file(cls, stream, chunks, policy, mode, bufsize)
+        st.src, st.sink, st.f = real_channel_file(cls, stream, chunks, policy, mode, bufsize, pauses)
     else:
-        st.src = Source(stream, chunks, eof)
+        st.src = Source(stream, chunks, eof, pauses)
         st.sink = Sink(policy)
         if cls == "BufferedFile":
             st.f = ScriptedFile(st.src, st.sink, mode, bufsize)
@@ -283,6 +312,7 @@ def make_state(cfg):
     st.written = bytearray()          # everything handed to successful write() calls
     st.closed = False
     st.problems = []                  # (key, detail) found while applying the LAST op
+    st.timed_out = None               # the LAST op was interrupted by a pause of the stream: which function
     st.canon = None
     return st
 
@@ -296,6 +326,8 @@ def apply(st, op, last):
     f = st.f
     kind = op[0]
     probs = []
+    st.timed_out = None
+    st.src.raised = False
     if kind in ("read", "readline", "next"):
         try:
             if kind == "read":
@@ -306,6 +338,16 @@ def apply(st, op, last):
                 r = next(f)
         except StopIteration:
             r = STOP
+        except socket.timeout as e:
+            if st.src.raised:
+                # the stream paused inside this call and the wrapper passed the timeout on: the call returned
+                # no data, so for the caller (and the reference reader) nothing has been consumed
+                r = TIMEOUT
+                st.timed_out = ("BufferedFile.read(size)" if op[1] is not None else "BufferedFile.read()") \
+                    if kind == "read" else "BufferedFile.readline"
+            else:
+                probs.append(("read-side-raises:%s:%s" % (kind, type(e).__name__), repr(e)))
+                r = None
         except (IOError, ValueError) as e:
             if st.closed:
                 r = "closed"           # reads after close() fail: allowed
@@ -315,7 +357,7 @@ def apply(st, op, last):
         except Exception as e:
             probs.append(("read-side-raises:%s:%s" % (kind, type(e).__name__), repr(e)))
             r = None
-        if r == "closed" or r is None:
+        if r == "closed" or r is None or r == TIMEOUT:
             st.u_pure = False
         elif not st.universal:
             # exact agreement with io.BytesIO
@@ -406,7 +448,7 @@ def snapshot(st):
     f = st.f
     return (st.src.pos, st.src.ci, st.src.left, bytes(f._rbuffer), f._at_trailing_cr, f._closed,
             f._wbuffer.getvalue(), bytes(st.sink.data), st.sink.calls % 2, bytes(st.written),
-            st.ref.tell(), st.u_pure, st.u_index, getattr(st.sink, "eof", False))
+            st.ref.tell(), st.u_pure, st.u_index, getattr(st.sink, "eof", False), st.src.pending)
 
 
 def drain(st):
@@ -414,6 +456,7 @@ def drain(st):
     if st.closed or st.problems:
         return None
     f = st.f
+    st.src.pending = ()               # the oracle's own read() is never interrupted
     if not st.universal:
         try:
             rest = f.read()
@@ -421,6 +464,11 @@ def drain(st):
             return ("drain-read()-raises:%s" % type(e).__name__, repr(e))
         want = st.ref.read()
         if rest != want:
+            if st.timed_out:
+                # the call that the stream interrupted returned nothing, yet bytes are gone (or come twice)
+                lost = "lost" if len(rest) < len(want) else "duplicated-or-altered"
+                return ("data-%s-after-stream-timeout:%s" % (lost, st.timed_out),
+                        {"interrupted_call_then_read()": show(rest), "stream_from_last_returned_byte": show(want)})
             return ("remaining-data-differs-from-stream", {"got": show(rest), "want": show(want)})
     elif st.u_pure:
         got = []
@@ -463,7 +511,9 @@ def run_config(cfg, ops, depth, acc, has_reads):
                           {"config": cfg_json(cfg), "history": hist + [ev]})
         if is_nontrivial(st, ev):
             acc.nt((cfg[1], cfg[2], cfg[5], cfg[6] if ev[0] in ("write", "flush", "close") else 0,
-                    st.canon[3], st.canon[6], ev[0], ev[1] if len(ev) > 1 else None))
+                    st.canon[3], st.canon[6], ev[0], ev[1] if len(ev) > 1 else None) + ((cfg[7],) if cfg[7] else ()))
+        if st.timed_out:
+            acc.count("calls_interrupted_by_stream_timeout")
         return not probs
 
     res = bfs.bfs(build, enabled, canon, on_transition, depth)
@@ -485,14 +535,14 @@ def is_nontrivial(st, ev):
 
 
 def cfg_json(cfg):
-    cls, stream, chunks, eof, policy, mode, bufsize = cfg
+    cls, stream, chunks, eof, policy, mode, bufsize, pauses = cfg
     return {"cls": cls, "stream": stream.decode("latin1"), "chunks": list(chunks), "eof": eof, "policy": policy,
-            "mode": mode, "bufsize": bufsize}
+            "mode": mode, "bufsize": bufsize, "timeout_before_chunk": list(pauses)}
 
 
 def cfg_from_json(d):
     return (d["cls"], d["stream"].encode("latin1"), tuple(d["chunks"]), d["eof"], d["policy"], d["mode"],
-            d["bufsize"])
+            d["bufsize"], tuple(d.get("timeout_before_chunk", ())))
 
 
 def streams(max_len):
@@ -510,23 +560,49 @@ def read_configs(tier):
             for mode in modes:
                 for b in bufs:
                     for eof in EOF_KINDS:
-                        yield ("BufferedFile", s, ch, eof, "all", mode, b)
-                    yield ("ChannelFile", s, ch, "empty", "all", mode, b)
+                        yield ("BufferedFile", s, ch, eof, "all", mode, b, ())
+                    yield ("ChannelFile", s, ch, "empty", "all", mode, b, ())
                     for cls in MAKEFILES:
-                        yield (cls, s, ch, "empty", "all", mode, b)
+                        yield (cls, s, ch, "empty", "all", mode, b, ())
+
+
+def pause_sets(nchunks):
+    """one pause before each chunk / before EOF, and one before every one of them"""
+    out = [(j,) for j in range(nchunks + 1)]
+    if nchunks:
+        out.append(tuple(range(nchunks + 1)))
+    return out
+
+
+def timeout_configs(tier):
+    """dimension 'the stream raises a transient error': the read space once more (shorter streams), the stream
+    answering socket.timeout at chunk boundaries; scripted subclass, and the real Channel timing out by itself."""
+    if tier == "quick":
+        max_len, bufs, classes = 3, [0, 2, 8192], ["Channel.makefile", "Channel.makefile_stderr"]
+    else:
+        max_len, bufs, classes = 4, [0, 1, 2, 3, 8192], ["ChannelFile"] + MAKEFILES
+    for s in streams(max_len):
+        for ch in enum.compositions(len(s)):
+            for pauses in pause_sets(len(ch)):
+                for mode in ("rb", "r"):
+                    for b in bufs:
+                        for eof in ("empty", "raise"):
+                            yield ("BufferedFile", s, ch, eof, "all", mode, b, pauses)
+                        for cls in classes:
+                            yield (cls, s, ch, "empty", "all", mode, b, pauses)
 
 
 def write_configs(tier):
     for pol in WPOL:
         for b in [0, 1, 2, 3, 8192]:
             for mode in ("wb", "w"):
-                yield ("BufferedFile", b"", (), "empty", pol, mode, b)
-                yield ("ChannelFile", b"", (), "empty", pol, mode, b)
+                yield ("BufferedFile", b"", (), "empty", pol, mode, b, ())
+                yield ("ChannelFile", b"", (), "empty", pol, mode, b, ())
     for cls in MAKEFILES:
         for pol in CPOL:
             for b in [-1, 0, 1, 2, 3, 8192]:
                 for mode in ("wb", "w"):
-                    yield (cls, b"", (), "empty", pol, mode, b)
+                    yield (cls, b"", (), "empty", pol, mode, b, ())
 
 
 def mixed_configs(tier):
@@ -537,9 +613,9 @@ def mixed_configs(tier):
         for ch in enum.compositions(len(s)):
             for b in [0, 1, 2]:
                 for pol in ("all", "one"):
-                    yield ("BufferedFile", s, ch, "empty", pol, "r+b", b)
+                    yield ("BufferedFile", s, ch, "empty", pol, "r+b", b, ())
                     for cls in MAKEFILES:
-                        yield (cls, s, ch, "empty", pol, "r+b", b)
+                        yield (cls, s, ch, "empty", pol, "r+b", b, ())
 
 
 MIXED_OPS = [("read", 1), ("read", None), ("readline", None), ("readline", 1), ("next",),
@@ -549,7 +625,7 @@ MIXED_OPS = [("read", 1), ("read", None), ("readline", None), ("readline", 1), (
 def run_chunk(item, acc):
     fam, depth, cfgs = item
     for cfg in cfgs:
-        if fam == "read":
+        if fam in ("read", "timeout"):
             run_config(cfg, READ_OPS, depth, acc, True)
         elif fam == "write":
             run_config(cfg, WRITE_OPS, depth, acc, False)
@@ -557,7 +633,7 @@ def run_chunk(item, acc):
             run_config(cfg, MIXED_OPS, depth, acc, True)
     if cfgs and len(acc.samples) < 2:
         acc.sample({"family": fam, "config": cfg_json(cfgs[-1]), "call_alphabet": [list(map(show, o)) for o in
-                    (READ_OPS if fam == "read" else WRITE_OPS if fam == "write" else MIXED_OPS)], "depth": depth})
+                    (READ_OPS if fam in ("read", "timeout") else WRITE_OPS if fam == "write" else MIXED_OPS)], "depth": depth})
 
 
 def main(tier):
@@ -566,10 +642,17 @@ def main(tier):
         "state = (stream position and chunk phase, read-ahead buffer, trailing-CR flag, write buffer, bytes that "
         "reached the stream, closed) of a real BufferedFile/ChannelFile reached by a call history; every transition "
         "is executed on the real object and judged (reads: result == io.BytesIO and the rest of the stream is still "
-        "readable; writes: prefix / complete after flush,close / through last LF when line-buffered); "
+        "readable; writes: prefix / complete after flush,close / through last LF when line-buffered); dimension "
+        "stream-raises-a-transient-error: configurations carry the chunk boundaries before which the stream raises "
+        "socket.timeout once (pending pauses are part of the state); an interrupted call consumes nothing for the "
+        "reference, the following calls and the drain are judged as usual (counter "
+        "calls_interrupted_by_stream_timeout); "
         "distinct_nontrivial = distinct (stream, chunking, mode, read-ahead buffer, write buffer, call) where the "
         "call crossed a chunk boundary, left read-ahead, hit CR handling, buffered data or needed partial writes",
         ["the scripted stream never returns more than asked and never 0 bytes before EOF; EOF is sticky",
+         "transient stream errors are socket.timeout only (the retryable error of Channel.recv), raised when no byte "
+         "of the next chunk has been handed over yet, at most once per chunk boundary; the oracle's own drain "
+         "read() is never interrupted; universal-newline modes are not combined with timeouts",
          "ChannelFile also runs over a stub channel (recv/sendall); Channel flow control is C19/C25's subject",
          "real-Channel configurations: single thread, the Transport is replaced by a recorder that parses the "
          "messages the channel emits and re-opens the send window after every data message (partial sends "
@@ -583,11 +666,13 @@ def main(tier):
     rc = list(read_configs(tier))
     wc = list(write_configs(tier))
     mc = list(mixed_configs(tier))
+    tc = list(timeout_configs(tier))
     items += [("read", rd, c) for c in enum.chunks(rc, max(16, len(rc) // 40))]
+    items += [("timeout", rd, c) for c in enum.chunks(tc, max(16, len(tc) // 40))]
     items += [("write", wr, c) for c in enum.chunks(wc, 16)]
     items += [("mixed", 3, c) for c in enum.chunks(mc, max(16, len(mc) // 20))]
     ck.merge(core.pmap(items, run_chunk, init=core.unpin))
-    ck.extra["bound"] = {"tier": tier, "read_configs": len(rc), "write_configs": len(wc), "mixed_configs": len(mc),
+    ck.extra["bound"] = {"tier": tier, "read_configs": len(rc), "stream_timeout_configs": len(tc), "write_configs": len(wc), "mixed_configs": len(mc),
                          "file_classes": ["BufferedFile (scripted subclass)", "ChannelFile (stub channel)"] + MAKEFILES,
                          "real_channel_send_window_policies": CPOL,
                          "read_depth": rd, "write_depth": wr, "mixed_depth": 3,
